@@ -50,6 +50,8 @@ JobFails(e) ==
                                     (o.kind = "Finished" /\ o.result = (IF Summary(jb).successful THEN "Success" ELSE "Failed"))
                             /\ (o.phase = "Succeeded") <=> (o.result = "Success")
                             /\ (o.phase = "Failed") <=> (o.result = "Failed"))
+    \* the finish time of a Job that finished through its tasks is the latest finish time among them (the TTL counts from it)
+    \cup Fail("C13_FinishTime", (o.kind = "Finished" /\ o.result \in {"Success", "Failed"}) => o.fints = LatestFin(jb))
     \cup Fail("C11_Deterministic", e.same)
     \cup Fail("S_Condition", LET c == Cond(jb) IN
                               /\ o.kind = c.kind /\ o.result = c.result /\ o.reason = c.reason /\ o.fints = c.fints /\ o.terminating = c.terminating
